@@ -611,11 +611,14 @@ class Interp:
                         if isinstance(rv, Raised):
                             out.append((rv, s2))
                             continue
-                        for b, s3 in self.B.compare(self, op, lv, rv, s2, lexpr, right):
-                            if b is True:
-                                nxt.append((rv, s3, right))
-                            else:
-                                out.append((b, s3))
+                        for b0, s30 in self.B.compare(self, op, lv, rv, s2, lexpr, right):
+                            # a comparison answered by a hook with a non-boolean (e.g. an SQL expression term) counts by its truthiness
+                            forks = [(b0, s30)] if isinstance(b0, (bool, Raised)) else self.truth_fork(b0, s30, None)
+                            for b, s3 in forks:
+                                if b is True:
+                                    nxt.append((rv, s3, right))
+                                else:
+                                    out.append((b, s3))
                 pending = nxt
             out.extend((True, s) for _, s, _ in pending)
             return self._guard(out)
@@ -1230,9 +1233,15 @@ class Interp:
             self.steps = 0
         self.ctx_stack.append((fi.module, fi.cls))
         try:
-            return self.call_func(fi.qualname, args, kwargs or {}, st)
+            res = self.call_func(fi.qualname, args, kwargs or {}, st)
         finally:
             self.ctx_stack.pop()
+        sink = getattr(self, "imprecision_sink", None)
+        if sink is not None and not self.ctx_stack:
+            for _, s in res:
+                if s.imprecise:
+                    sink(s.imprecise)
+        return res
 
 
 def _as_load(t: ast.expr) -> ast.expr:
